@@ -21,13 +21,15 @@ from harness import core, values as V, diffcommon as D
 THEOREM_FILE = "Properties/C02.v"
 COQCHK = ["Properties.C02"]
 RULE = ("pairs: (a) (x, deepcopy(x)) for random nested values x (dict/list/tuple/set/frozenset/scalars, ==-aliased atoms in 30%), (b) single-edit "
-        "neighbours: every EDIT_KIND of harness.values (13 kinds) applied at a random position, i.e. at every depth, several times per value, "
-        "(c) random independent pairs, (d) a seeded sample (600 / 12000) of the ordered pairs of an exhaustive small universe (599 values), (e) values containing date/datetime/time/timedelta "
+        "neighbours: every EDIT_KIND of harness.values (13 kinds) applied at a random position, i.e. at every depth, several times per value, plus 3 near-miss "
+        "edits per value (float +-0.5, int +-1, int<->float, bool<->int, str case/blank/newline, str<->bytes, list<->tuple, set<->frozenset, None<->False), "
+        "(c) random independent pairs and all-atom list pairs related by insert/delete/replace/move/dup/rotate edits under 0-2 common levels, (d) a seeded sample (600 / 12000) of the ordered pairs of an exhaustive small universe (599 values), (e) values containing date/datetime/time/timedelta "
         "and numpy int/float arrays (direct oracle only); configurations: view {text,tree} x verbose_level {1,2} x threshold_to_diff_deeper "
         "{0,0.33,0.9} x zip_ordered_iterables x cache_size {0,1,5000} x max_passes {0,1,10**7}: a random sample of 6 of the 216 per pair, the "
         "full grid on every 40th pair. Non-trivial = the two values are not Python-equal or the diff is non-empty; distinct by (t1, t2, cfg).")
 TRUSTED = ["difflib.SequenceMatcher opcodes are an oracle: copy clause proved for every oracle that tiles the lists with balanced 'equal' blocks, soundness "
-           "for every valid oracle ('equal' blocks pointwise ==); the correspondence feeds the model the opcodes difflib returns",
+           "for every valid oracle ('equal' blocks pointwise ==); the correspondence feeds the model the opcodes difflib returns, and the Coq predicate "
+           "valid_opcodes itself is evaluated on those opcodes (cases 'difflib_opcodes_valid'), so the hypothesis is observed, not only assumed",
            "DeepHash of set members is an injective function in the soundness theorem (the real one is not: finding K1) and the stand-in hatom_simple in the "
            "correspondence (pairs whose sets hold ==-aliased numbers or tag-like strings are compared by the direct oracle only)",
            "datetimes and numeric arrays are outside the model: direct oracle only (numpy is installed in /venv)",
@@ -35,7 +37,8 @@ TRUSTED = ["difflib.SequenceMatcher opcodes are an oracle: copy clause proved fo
            "cache_size / max_passes are not in the model (ordered mode never consults them): inertness is checked on the implementation"]
 ASSUMPTIONS = ["threshold_to_diff_deeper <= 1", "dict/set inputs satisfy Python's representation invariant (keys / members pairwise !=)",
                "soundness: ignore_private_variables=False, or no dict key starting with '__' (documented: such keys are not compared)",
-               "soundness: hatom injective (real DeepHash: finding K1)"]
+               "soundness: the item hash is injective on the set members of the inputs; for the DeepHash scalar model: set members tag_safe (no str 'NONE' / containing ':'), "
+               "any injective hasher (real DeepHash otherwise: finding K1)"]
 
 THRS = (0, 0.33, 0.9)
 GRID = [dict(view=v, verbose_level=vb, threshold_to_diff_deeper=thr, zip_ordered_iterables=z, cache_size=cs, max_passes=mp)
@@ -225,9 +228,66 @@ def _corr_one(ctx, t1, t2, cases, every, zip_, thr):
                 ctx.count("corr:text_v%d" % verbose)
 
 
+def opcode_validity_cases(t1, t2):
+    """the hypothesis of C02_empty_sound / C02_copy_empty observed: the opcodes difflib
+    really returns for every pair of all-atom lists compared at one path satisfy the Coq
+    predicate valid_opcodes (tiling with well-shaped blocks + 'equal' blocks pointwise ==)"""
+    out = []
+    for cp, ops in D.opcode_table(t1, t2):
+        xs, ys = V.get_at(t1, D.py_path(cp)), _get_t2(t1, t2, cp)
+        expr = "sx_bool (valid_opcodes %s [%s] [%s])" % (
+            core.coq_list("mkOp %s %d %d %d %d" % (D.TAGS[o[0]], o[1], o[2], o[3], o[4]) for o in ops),
+            "; ".join(V.to_coq(x) for x in xs), "; ".join(V.to_coq(y) for y in ys))
+        out.append((expr, True, {"what": "difflib opcodes valid", "xs": repr(xs), "ys": repr(ys), "ops": repr(ops)}))
+    return out
+
+
+def _get_t2(t1, t2, cp):
+    """the object of t2 at the canonical path cp (dict keys are looked up by ==)"""
+    cur = t2
+    for tag, x in cp:
+        cur = cur[x] if tag == "x" else cur[D.uncanon_atom(x)]
+    return cur
+
+
 # ---------------------------------------------------------------------------
 # generators
 # ---------------------------------------------------------------------------
+
+def near_miss(rng, v):
+    """One smallest-possible change somewhere in v (the differences a tolerant or
+    type-blind comparer would miss): float +-0.5, int +-1, int <-> ==-float, bool <-> ==-int,
+    str case / trailing blank / trailing newline, str <-> bytes, list <-> tuple,
+    set <-> frozenset, None <-> False.  Returns (value, kind) or (v, None)."""
+    v = copy.deepcopy(v)
+    path = rng.choice(list(V.positions(v)))
+    sub = V.get_at(v, path)
+    new, kind = None, None
+    if isinstance(sub, bool):
+        new, kind = (int(sub) if rng.random() < 0.5 else (not sub)), "near:bool"
+    elif isinstance(sub, float):
+        new, kind = rng.choice([sub + 0.5, sub - 0.5] + ([int(sub)] if sub == int(sub) else [])), "near:float"
+    elif isinstance(sub, int):
+        new, kind = rng.choice([sub + 1, sub - 1, float(sub)] + ([bool(sub)] if sub in (0, 1) else [])), "near:int"
+    elif isinstance(sub, str):
+        cands = [sub + " ", sub + "\n", sub.swapcase(), sub.encode("latin-1", "replace")]
+        new, kind = rng.choice([c for c in cands if not (isinstance(c, str) and c == sub)] or [sub + "x"]), "near:str"
+    elif isinstance(sub, bytes):
+        new, kind = rng.choice([sub + b" ", sub.decode("latin-1")]), "near:bytes"
+    elif sub is None:
+        new, kind = rng.choice([False, 0, "None"]), "near:none"
+    elif isinstance(sub, list):
+        new, kind = tuple(sub), "near:list_to_tuple"
+    elif isinstance(sub, tuple):
+        new, kind = list(sub), "near:tuple_to_list"
+    elif isinstance(sub, frozenset):
+        new, kind = set(sub), "near:frozenset_to_set"
+    elif isinstance(sub, set):
+        new, kind = frozenset(sub), "near:set_to_frozenset"
+    else:
+        return v, None
+    return V.set_at(v, path, new), kind
+
 
 def gen_model_pairs(ctx, n_values):
     """(t1, t2, kind, is_copy)"""
@@ -244,8 +304,17 @@ def gen_model_pairs(ctx, n_values):
                 if k is not None:
                     out.append((x, y, "edit:" + k, False))
                     break
+        for _try in range(3):
+            y, k = near_miss(rng, x)
+            if k is not None:
+                out.append((x, y, k, False))
         if rng.random() < 0.5:
             out.append((x, V.gen_value(rng, depth=3, width=4, alias=alias, strings=STRINGS), "independent", False))
+        # all-atom lists related by insert/delete/replace/move/dup/rotate edits (the shapes on which
+        # the difflib pass and the pairwise pass each win sometimes), under 0-2 common levels
+        a, b, _kinds = V.gen_atom_list_pair(rng)
+        t1, t2 = V.plant(rng, rng.choice([0, 0, 1, 2]), (a, b))
+        out.append((t1, t2, "atom_list_edit", False))
     return out
 
 
@@ -356,11 +425,13 @@ def replay_witnesses(ctx):
 def run(ctx):
     n_values = 1500 if ctx.thorough else 200
     pairs = gen_model_pairs(ctx, n_values) + small_pairs(ctx, 600)
-    cases = []
+    cases, vcases = [], []
     for i, (t1, t2, kind, is_copy) in enumerate(pairs):
         ctx.count("gen:" + kind)
         oracle_pair(ctx, t1, t2, is_copy, full_grid=(i % 40 == 0), stats_key="verdict")
         corr_pair(ctx, t1, t2, cases, every=(i % 25 == 0))
+        if i % 3 == 0 or kind == "atom_list_edit":
+            vcases += opcode_validity_cases(t1, t2)
     for (t1, t2, kind, is_copy) in gen_exotic(ctx, 1500 if ctx.thorough else 150):
         ctx.count("gen:" + kind)
         oracle_pair(ctx, t1, t2, is_copy, full_grid=False, stats_key="verdict_exotic", model_ok=False)
@@ -369,6 +440,7 @@ def run(ctx):
     for c in cases[:3]:
         ctx.sample(c[2])
     ctx.coq_cases("c02", D.MODEL_HDR, cases, shard=150, label="tree_and_text")
+    ctx.coq_cases("c02v", D.MODEL_HDR + "\nFrom DD Require Import Diff.DiffEmpty.", vcases, shard=300, label="difflib_opcodes_valid")
 
 
 def replay(ctx, data):
